@@ -33,7 +33,7 @@ fn check(index: usize, input: &str) -> Option<String> {
   }
 }
 
-const ALPHABET: &[&str] = &["a", "Z", "7", " ", "\n", ";", "-", ".", "(", "$", "\u{e9}", "\u{20ac}", "\u{1F600}"];
+const ALPHABET: &[&str] = &["a", "7", " ", "\n", ";", "-", "(", "$", "\"", "\\", "\u{e9}", "\u{20ac}", "\u{1F600}"];
 
 pub fn find(args: &[String]) -> i32 {
   let max_len: usize = args.first().and_then(|s| s.parse().ok()).unwrap_or(4);
